@@ -824,27 +824,52 @@ var _ = constant.Int
 // The one path excluded is the no-match exit of the kind switch: it is what
 // C04.R1/R2 cover (every schema leaf kind has a case).
 func c04ContentAssigned(c *Ctx, r *Report, f *ssa.Function, rule string) {
-	var enc *ssa.Alloc
-	fieldIdx := -1
+	// the local object that carries the content encoder: a struct made in the function with a
+	// member of an interface type that has a Len method (berTypeEncoder.value today; a builder
+	// object that owns the same state is the same thing), and that member is stored here
+	type cand struct {
+		a   *ssa.Alloc
+		idx int
+	}
+	var cands []cand
 	for _, b := range f.Blocks {
 		for _, ins := range b.Instrs {
-			if a, ok := ins.(*ssa.Alloc); ok {
-				if n, ok := a.Type().(*types.Pointer).Elem().(*types.Named); ok && n.Obj().Name() == "berTypeEncoder" {
-					if st, ok := n.Underlying().(*types.Struct); ok {
-						for i := 0; i < st.NumFields(); i++ {
-							if st.Field(i).Name() == "value" && enc == nil && hasFieldStore(a, i) {
-								enc, fieldIdx = a, i
-							}
-						}
+			a, ok := ins.(*ssa.Alloc)
+			if !ok {
+				continue
+			}
+			n, ok := a.Type().(*types.Pointer).Elem().(*types.Named)
+			if !ok || n.Obj().Pkg() != f.Pkg.Pkg {
+				continue
+			}
+			st, ok := n.Underlying().(*types.Struct)
+			if !ok {
+				continue
+			}
+			for i := 0; i < st.NumFields(); i++ {
+				it, isIface := st.Field(i).Type().Underlying().(*types.Interface)
+				if !isIface || !hasFieldStore(a, i) {
+					continue
+				}
+				hasLen := false
+				for m := 0; m < it.NumMethods(); m++ {
+					if it.Method(m).Name() == "Len" {
+						hasLen = true
 					}
+				}
+				if hasLen {
+					cands = append(cands, cand{a, i})
 				}
 			}
 		}
 	}
-	if enc == nil {
-		r.viol(rule, fnKey(f)+"|anchor", c.rel(f.Pos()), "the local encoder value (berTypeEncoder with a value member) was not found in "+f.Name())
+	if len(cands) == 0 {
+		r.viol(rule, fnKey(f)+"|anchor", c.rel(f.Pos()), "the local object that carries the content encoder (a struct with a member of the content-encoder interface, stored in "+f.Name()+") was not found")
 		return
 	}
+	// the object whose member is used most is the one the function assembles its result in
+	sort.SliceStable(cands, func(i, j int) bool { return fieldUseCount(cands[i].a, cands[i].idx) > fieldUseCount(cands[j].a, cands[j].idx) })
+	enc, fieldIdx := cands[0].a, cands[0].idx
 	isValueAddr := func(v ssa.Value) bool {
 		fa, ok := v.(*ssa.FieldAddr)
 		return ok && fa.X == ssa.Value(enc) && fa.Field == fieldIdx
@@ -975,6 +1000,17 @@ func c04ContentAssigned(c *Ctx, r *Report, f *ssa.Function, rule string) {
 			r.check(st == assigned, rule, key, posOf(c, ld), "a content encoder has been stored on every path reaching this use", "a path reaches this use of berType.value without any content encoder having been stored"+why+": the method call on the nil interface panics (e.g. a SEQUENCE whose members are all OPTIONAL and absent)")
 		}
 	}
+}
+
+// fieldUseCount: loads and stores of one member of a local struct.
+func fieldUseCount(a *ssa.Alloc, idx int) int {
+	n := 0
+	for _, ref := range *a.Referrers() {
+		if fa, ok := ref.(*ssa.FieldAddr); ok && fa.Field == idx {
+			n += len(*fa.Referrers())
+		}
+	}
+	return n
 }
 
 func blockPos(b *ssa.BasicBlock) token.Pos {
